@@ -64,12 +64,12 @@ def c01_runs(tier):
     out = []
     if tier == "quick":
         for c in cfgs:
-            out.append({"kind": "fuzz", "cfg": "fz-" + c, "bin": "fuzz_stream", "workers": 2, "runs": 150000, "max_len": 512, "corpus": "corpus/stream", "empty_worker": True, "max_time": 120})
-            out.append({"kind": "fuzz", "cfg": "fz-" + c, "bin": "fuzz_struct", "workers": 2, "runs": 60000, "max_len": 512, "max_time": 120})
+            out.append({"kind": "fuzz", "cfg": "fz-" + c, "bin": "fuzz_stream", "workers": 2, "runs": 150000, "max_len": 600, "corpus": "corpus/stream", "empty_worker": True, "max_time": 120})
+            out.append({"kind": "fuzz", "cfg": "fz-" + c, "bin": "fuzz_struct", "workers": 2, "runs": 60000, "max_len": 600, "corpus": "corpus/struct", "empty_worker": True, "max_time": 120})
     else:
         for c in cfgs:
             out.append({"kind": "fuzz", "cfg": "fz-" + c, "bin": "fuzz_stream", "workers": 2, "runs": 2000000, "max_len": 4096, "corpus": "corpus/stream", "empty_worker": True, "max_time": 420})
-            out.append({"kind": "fuzz", "cfg": "fz-" + c, "bin": "fuzz_struct", "workers": 2, "runs": 1000000, "max_len": 2048, "max_time": 420})
+            out.append({"kind": "fuzz", "cfg": "fz-" + c, "bin": "fuzz_struct", "workers": 2, "runs": 1000000, "max_len": 2048, "corpus": "corpus/struct", "empty_worker": True, "max_time": 420})
     return out
 
 
